@@ -87,6 +87,8 @@ def canon_failure(f):
         return "restart"
     if isinstance(v, defer.CancelledError):
         return "ext:cancelled:0"  # produced by Deferred.cancel() itself
+    if type(v) is C.KafkaError and "has no entry for" in str(v):
+        return "ext:kafka:0"  # an OffsetCommit reply without an entry for the partition (event `commitDone k empty`): a failed attempt
     return "unexpected:%s" % type(v).__name__
 
 
@@ -195,6 +197,19 @@ class Run(object):
             self.log("procRet defer")
             self.procd = defer.Deferred(lambda d: self.log("procCancel"))
             return self.procd
+        if res == "survive":
+            # (beyond the model) a Deferred that outlives its cancellation: its own errback turns the CancelledError
+            # into a clean-up Deferred that fires later (event `cleanupDone`)
+            self.log("procRet defer")
+            self.procd = d = defer.Deferred(lambda d: self.log("procCancel"))
+
+            def cleanup(f):
+                f.trap(defer.CancelledError)
+                self.cleanupd = defer.Deferred()
+                return self.cleanupd
+
+            d.addErrback(cleanup)
+            return d
         _, kind, tag = res.split(":")
         self.log("procRet err:%s:%s" % (kind, tag))
         raise Tagged.make(kind, tag)
@@ -293,6 +308,13 @@ class Run(object):
                 # the reactor logs an exception escaping a delayed call and carries on
                 self.internal_errors.append(type(e).__name__)
             return True
+        if op == "cleanupDone":
+            d = getattr(self, "cleanupd", None)
+            if d is None or d.called:
+                return False
+            self.cleanupd = None
+            d.callback(None)
+            return True
         if op == "procDone":
             d = self.procd
             if d is None or d.called:
@@ -309,7 +331,14 @@ class Run(object):
             r = cl.outstanding(int(w[1]), kinds[op])
             if r is None:
                 return False
-            if w[2] == "err":
+            # the late result of a fetch/offset request the consumer cancelled in stop() (the client swallowed the cancel):
+            # the run that issued it is over, the consumer drops it - for the model the event is not enabled
+            stale = r.cancelled and r.kind != "commit"
+            if w[2] == "empty":
+                if op != "commitDone":
+                    return False
+                cl.complete(r, [])  # the broker's reply carries no entry for the partition: acknowledges nothing
+            elif w[2] == "err":
                 kind, tag = w[3].split(":")
                 cl.complete(r, Tagged.make(kind, tag))
             elif op == "fetchDone":
@@ -323,7 +352,7 @@ class Run(object):
                 cl.complete(r, [C.OffsetFetchResponse(TOPIC, PARTITION, int(w[3]), b"", 0)])
             else:
                 cl.complete(r, [C.OffsetCommitResponse(TOPIC, PARTITION, 0)])
-            return True
+            return "stale" if stale else True
         raise ValueError("unknown event " + ev)
 
     def begin(self):
@@ -350,6 +379,8 @@ class Run(object):
             self.crashed = True
         if not ok:
             return ["bad-op"]
+        if ok == "stale" and not self.cur and not self.crashed:
+            return ["bad-op"]  # dropped without a trace, as the model says (anything else is reported and disagrees)
         if not self.crashed:
             c = self.consumer
             self.log("probe %s %s" % (opt(c.last_processed_offset), opt(c.last_committed_offset)))
